@@ -295,6 +295,35 @@ Fixpoint run (maxassets : N) (w : world) (ops : list op) : world :=
   | o :: ops' => run maxassets (fst (step maxassets w o)) ops'
   end.
 
+(* a transaction group: all transactions are evaluated in ONE child cow (each committed
+   member advances the transaction counter for the next one) which is committed only if every
+   member succeeds; otherwise the group leaves nothing behind.  Result: the ApplyData values of
+   the members, or the error and the index of the failing member. *)
+Fixpoint run_group (maxassets : N) (w : world) (g : list op) (k : N) : world * res (list N) * N :=
+  match g with
+  | [] => (w, Ok [], k)
+  | o :: g' =>
+      match step maxassets w o with
+      | (w1, Ok v) =>
+          let '(w2, r, k2) := run_group maxassets w1 g' (k + 1) in
+          (w2, match r with Ok vs => Ok (v :: vs) | Err e => Err e end, k2)
+      | (_, Err e) => (w, Err e, k)
+      end
+  end.
+
+Definition gstep (maxassets : N) (w : world) (g : list op) : world * res (list N) * N :=
+  let '(w', r, k) := run_group maxassets w g 0 in
+  match r with
+  | Ok vs => (w', Ok vs, k)
+  | Err e => (w, Err e, k)
+  end.
+
+Fixpoint grun (maxassets : N) (w : world) (gs : list (list op)) : world :=
+  match gs with
+  | [] => w
+  | g :: gs' => grun maxassets (fst (fst (gstep maxassets w g))) gs'
+  end.
+
 (* inputs are uint64 *)
 Definition op_wf (o : op) : Prop :=
   match o with
